@@ -12,8 +12,9 @@ is proved and what is covered by the write/read correspondence stream only).
 import IclModel.Props.C02
 import IclModel.Props.C03
 import IclModel.Lemmas.Framing
+import IclModel.Lemmas.Builder
 namespace Icl.C01
-open Icl
+open Icl Icl.C04
 
 /-- length-prefix framing never changes content: splitting the writer's concatenation of
 `prefix ++ record` returns exactly the records, with no trailing garbage, whatever bytes they hold -/
@@ -27,5 +28,181 @@ theorem writer_length_guard (n : Nat) (h : validSizeInt (n : Int) = true) : n < 
   have h2 : (n : Int) < ((100000000 : Nat) : Int) := h.2
   have : n < 100000000 := by exact_mod_cast h2
   omega
+
+/-! ### tree level: the reader rebuilds the tree the writer walked -/
+
+theorem readLines_append (m : Model) (e : Enc) (l1 l2 : List Bytes) (s : RState) :
+    readLines m e (l1 ++ l2) s =
+      match readLines m e l1 s with
+      | (s1, none) => readLines m e l2 s1
+      | (s1, some er) => (s1, some er) := by
+  induction l1 generalizing s with
+  | nil => simp [readLines]
+  | cons l r ih =>
+    simp only [List.cons_append, readLines]
+    split
+    · rfl
+    · split
+      · rw [ih]
+      · rfl
+
+/-- the lines of a file in writer order: file header, the records of every cash letter, file control -/
+def fileLines (ln : Kind → Vals → Bytes) (f : File Vals) : List Bytes :=
+  [ln .fileHeader f.header] ++ (f.cashLetters.flatMap (clRecs ln)).map (·.2.2) ++ [ln .fileControl f.control]
+
+/-- every record of the file, rendered by `ln`, is a line of its kind that the reader decodes back to
+the record; every container is well formed and passes the container-level validation of the reader -/
+structure FileOK (m : Model) (e : Enc) (ln : Kind → Vals → Bytes) (f : File Vals) : Prop where
+  hdrKind : kindOfLine (ln .fileHeader f.header) = some .fileHeader
+  hdrLen : 80 ≤ (ln .fileHeader f.header).length
+  hdrRunes : runeCount ((if e.ebcdic then m.cm.decode else id) (ln .fileHeader f.header)) = 80
+  hdrParse : parseValidate m .fileHeader id ((if e.ebcdic then m.cm.decode else id) (ln .fileHeader f.header))
+      ((m.layout .fileHeader).new m.now) = .ok f.header
+  ctlKind : kindOfLine (ln .fileControl f.control) = some .fileControl
+  ctlLen : 80 ≤ (ln .fileControl f.control).length
+  ctlParse : parseValidate m .fileControl id ((if e.ebcdic then m.cm.decode else id) (ln .fileControl f.control)) {} = .ok f.control
+  ctlType : (f.control.s "recordType").isEmpty = false
+  cashLetters : ∀ cl ∈ f.cashLetters, CashLetterOK m e ln cl
+
+theorem minLen_of_kind (l : Bytes) (k : Kind) (h : kindOfLine l = some k) (hk : k ≠ .cdAddB ∧ k ≠ .rdAddC) : minLen l = 80 := by
+  unfold minLen
+  rw [h]
+  cases k <;> simp_all
+
+/-- **C01, tree level** (model reader): reading the lines of a well-formed file, each of which decodes to
+its record, returns exactly that file - every record under its parent, in order, nothing else - and
+passes the reader's end-of-input checks -/
+theorem C01_reassemble (m : Model) (e : Enc) (ln : Kind → Vals → Bytes) (f : File Vals) (h : FileOK m e ln f) :
+    ∃ s, readLines m e (fileLines ln f) (initState m) = (s, none) ∧ s.file = f ∧
+      s.headerUntouched = false ∧ (s.control.s "recordType").isEmpty = false ∧ s.cur.header.isSome = false := by
+  unfold fileLines
+  -- file header
+  have hmin1 := minLen_of_kind _ _ h.hdrKind (by simp)
+  have hp1 := h.hdrParse
+  unfold parseValidate at hp1
+  let s0 := initState m
+  let s1 : RState := { s0 with lineNum := s0.lineNum + 1 }
+  have step1 : ∃ s2, rstep m e s1 (ln .fileHeader f.header) = .ok s2 ∧ s2.core = s0.core ∧ s2.header = f.header ∧
+      s2.control = s0.control ∧ s2.headerUntouched = false := by
+    cases hpr : (m.layout .fileHeader).parseRec id m.now ((if e.ebcdic then m.cm.decode else id) (ln .fileHeader f.header))
+        ((m.layout .fileHeader).new m.now) with
+    | panic => simp [hpr] at hp1
+    | done v =>
+      simp only [hpr] at hp1
+      cases hv : m.validateK .fileHeader v with
+      | mk o v' =>
+        cases o with
+        | some fld => simp [hv] at hp1
+        | none =>
+          simp only [hv, Except.ok.injEq] at hp1
+          refine ⟨{ ({ s1 with recordName := "FileHeader" } : RState) with
+              header := v',
+              headerUntouched := s1.headerUntouched &&
+                !(runeCount ((if e.ebcdic then m.cm.decode else id) (ln .fileHeader f.header)) == 80) }, ?_, ?_⟩
+          · simp only [rstep, h.hdrKind]
+            have : s1.header = (m.layout .fileHeader).new m.now := rfl
+            simp only [this, hpr, hv]
+          · simp [RState.core, s1, s0, initState, hp1, h.hdrRunes]
+  obtain ⟨s2, hs2, hc2, hh2, hctl2, hu2⟩ := step1
+  -- cash letters
+  have hruns := runs_cashLetters m e ln f.cashLetters [] h.cashLetters
+  have hcore0 : s2.core = ⟨[], { header := none, control := none }, none⟩ := by
+    rw [hc2]; rfl
+  obtain ⟨s3, hr3, hc3, hh3, hctl3, hu3⟩ := readLines_of_runs m e _ _ s2 (by rw [hcore0]; exact hruns)
+  simp only [List.nil_append] at hc3
+  -- file control
+  have hmin2 := minLen_of_kind _ _ h.ctlKind (by simp)
+  have hp2 := h.ctlParse
+  unfold parseValidate at hp2
+  let s4 : RState := { s3 with lineNum := s3.lineNum + 1 }
+  have hctl4 : s4.control = {} := by
+    show s3.control = {}
+    rw [hctl3, hctl2]; rfl
+  have hcur4 : s4.cur.header = none := by
+    have : s3.core.cur = { header := none, control := none } := by rw [hc3]
+    show s3.cur.header = none
+    have h' : s3.cur = { header := none, control := none } := this
+    rw [h']
+  have step2 : ∃ s5, rstep m e s4 (ln .fileControl f.control) = .ok s5 ∧ s5.core = s3.core ∧ s5.header = s3.header ∧
+      s5.control = f.control ∧ s5.headerUntouched = s3.headerUntouched := by
+    cases hpr : (m.layout .fileControl).parseRec id m.now ((if e.ebcdic then m.cm.decode else id) (ln .fileControl f.control)) {} with
+    | panic => simp [hpr] at hp2
+    | done v =>
+      simp only [hpr] at hp2
+      cases hv : m.validateK .fileControl v with
+      | mk o v' =>
+        cases o with
+        | some fld => simp [hv] at hp2
+        | none =>
+          simp only [hv, Except.ok.injEq] at hp2
+          refine ⟨{ ({ s4 with recordName := "FileControl" } : RState) with control := v' }, ?_, ?_⟩
+          · simp only [rstep, h.ctlKind]
+            have e1 : (({ s4 with recordName := "FileControl" } : RState).control.s "recordType").isEmpty = true := by
+              show (s4.control.s "recordType").isEmpty = true
+              rw [hctl4]; rfl
+            have e2 : ({ s4 with recordName := "FileControl" } : RState).cur.header.isSome = false := by
+              show s4.cur.header.isSome = false
+              rw [hcur4]; rfl
+            simp only [e1, e2, Bool.not_true, Bool.false_eq_true, if_false]
+            simp only [hctl4, hpr, hv]
+          · exact ⟨rfl, rfl, hp2, rfl⟩
+  obtain ⟨s5, hs5, hc5, hh5, hctl5, hu5⟩ := step2
+  refine ⟨s5, ?_, ?_, ?_, ?_, ?_⟩
+  · rw [readLines_append, readLines_append]
+    have l1 : readLines m e [ln .fileHeader f.header] (initState m) = (s2, none) := by
+      simp only [readLines]
+      have : ¬ (ln .fileHeader f.header).length < minLen (ln .fileHeader f.header) := by
+        rw [hmin1]; have := h.hdrLen; omega
+      simp only [this, if_false]
+      show (match rstep m e s1 (ln .fileHeader f.header) with
+        | .ok s' => readLines m e [] s'
+        | .error (s', er) => (s', some { er with line := s1.lineNum })) = (s2, none)
+      rw [hs2]; rfl
+    rw [l1]
+    simp only
+    rw [hr3]
+    simp only [readLines]
+    have : ¬ (ln .fileControl f.control).length < minLen (ln .fileControl f.control) := by
+      rw [hmin2]; have := h.ctlLen; omega
+    simp only [this, if_false]
+    show (match rstep m e s4 (ln .fileControl f.control) with
+      | .ok s' => (s', none)
+      | .error (s', er) => (s', some { er with line := s4.lineNum })) = (s5, none)
+    rw [hs5]
+  · have hcl : s5.cashLetters = f.cashLetters := by
+      have : s5.core.cashLetters = f.cashLetters := by rw [hc5, hc3]
+      exact this
+    simp only [RState.file, hcl, hh5, hh3, hh2, hctl5]
+  · rw [hu5, hu3, hu2]
+  · rw [hctl5]; exact h.ctlType
+  · have : s5.core.cur = { header := none, control := none } := by rw [hc5, hc3]
+    have h' : s5.cur = { header := none, control := none } := this
+    rw [h']
+    rfl
+
+/-- **C01, length-prefixed framing, end to end on the model reader**: the length-prefixed stream of the
+lines of a well-formed file reads back as exactly that file (arbitrary record bytes: binary images and
+signatures included) -/
+theorem C01_roundtrip_lp (m : Model) (e : Enc) (ln : Kind → Vals → Bytes) (f : File Vals) (hlp : e.lp = true)
+    (h : FileOK m e ln f) (hlen : ∀ l ∈ fileLines ln f, l.length < 4294967296) :
+    readFile m e (joinLP (fileLines ln f)) = (f, none) := by
+  obtain ⟨s, hr, hf, hu, hc, hcur⟩ := C01_reassemble m e ln f h
+  unfold readFile
+  simp only [hlp, if_true, framing_lp _ hlen, hr, Bool.not_true, Bool.false_eq_true, if_false, hu, hc, hcur, hf]
+
+/-- **C01, newline framing**: the same when no line contains a line feed or ends in a carriage return -/
+theorem C01_roundtrip_nl (m : Model) (e : Enc) (ln : Kind → Vals → Bytes) (f : File Vals) (hlp : e.lp = false)
+    (h : FileOK m e ln f) (hno : ∀ l ∈ fileLines ln f, (0x0A : UInt8) ∉ l) (hcr : ∀ l ∈ fileLines ln f, dropCR l = l) :
+    readFile m e (joinNL (fileLines ln f)) = (f, none) := by
+  obtain ⟨s, hr, hf, hu, hc, hcur⟩ := C01_reassemble m e ln f h
+  have hmap : ∀ (ls : List Bytes), (∀ l ∈ ls, dropCR l = l) → ls.map dropCR = ls := by
+    intro ls hl
+    induction ls with
+    | nil => rfl
+    | cons l ls ih => simp [hl l (by simp), ih (fun x hx => hl x (by simp [hx]))]
+  have hsplit : splitNL (joinNL (fileLines ln f)) = fileLines ln f := by
+    rw [splitNL_joinNL _ hno, hmap _ hcr]
+  unfold readFile
+  simp only [hlp, Bool.false_eq_true, if_false, hsplit, hr, Bool.not_true, hu, hc, hcur, hf]
 
 end Icl.C01
